@@ -29,6 +29,7 @@ import (
 	"sort"
 	"strings"
 	"testing"
+	"time"
 
 	"github.com/ChainSafe/gossamer/internal/verifmc"
 	"github.com/ChainSafe/gossamer/internal/verifmc/ref"
@@ -419,7 +420,7 @@ func c08Classify(o c08Op, before, want, got *ref.C08Overlay, pre c08Pre, diffs [
 				cls := c08KeyClass(before, d.ns, k)
 				q := ""
 				if d.ns == "main" && k == c08Child {
-					q = "+named-like-the-child"
+					q = "~named-like-the-child"
 				}
 				parts = append(parts, where+":"+dir+":"+cls+q)
 			}
@@ -494,7 +495,7 @@ func c08Classify(o c08Op, before, want, got *ref.C08Overlay, pre c08Pre, diffs [
 	if o.kind == "deleteChildLimit" && o.limit < 0 {
 		kind = "deleteChildLimit(nil)"
 	}
-	return kind + c08TxTag(inTx) + ":" + strings.Join(parts, ",")
+	return kind + c08TxTag(inTx) + ":" + strings.Join(parts, "+")
 }
 
 func c08DiffString(diffs []c08Diff) string {
@@ -584,7 +585,7 @@ func c08Observe(s *c08State) {
 				fl = append(fl, "wrong-value:"+c08ViewClass(m, "main", k))
 			}
 			fl = c08Uniq(fl)
-			s.softf("TrieEntries"+tag+":"+strings.Join(fl, ","), "TrieEntries = %s, want %s; %s", ref.C08MapString(got), ref.C08MapString(mv), ctx())
+			s.softf("TrieEntries"+tag+":"+strings.Join(fl, "+"), "TrieEntries = %s, want %s; %s", ref.C08MapString(got), ref.C08MapString(mv), ctx())
 		}
 	}
 	for _, k := range c08ChildKeys {
@@ -658,7 +659,7 @@ func c08Observe(s *c08State) {
 				fl = append(fl, "duplicates")
 			}
 			fl = c08Uniq(fl)
-			s.softf("GetKeysWithPrefixFromChild"+tag+":"+strings.Join(fl, ","), "GetKeysWithPrefixFromChild(%s,%q) = %q (err %v), want %q; %s", c08Child, p, keys, err, want.Keys(), ctx())
+			s.softf("GetKeysWithPrefixFromChild"+tag+":"+strings.Join(fl, "+"), "GetKeysWithPrefixFromChild(%s,%q) = %q (err %v), want %q; %s", c08Child, p, keys, err, want.Keys(), ctx())
 		}
 	}
 }
@@ -686,56 +687,63 @@ func c08LimitBytes(l int) *[]byte {
 	return &b
 }
 
-// c08CmpRet compares (deleted, allDeleted) of a limited clear where the semantics are unambiguous.
-func c08CmpRet(s *c08State, name string, inTx bool, before *ref.C08Overlay, ns, prefix string, res ref.C08ClearResult, del uint32, all bool) {
+// c08CmpRet compares (deleted, allDeleted) of a limited clear where the semantics are unambiguous
+// (no overlay entry matches).  A mismatch is named after the deviation that reproduces the returned
+// pair exactly, or "wrong-return-values".
+func c08CmpRet(s *c08State, name string, inTx bool, before *ref.C08Overlay, ns, prefix string, limit int, res ref.C08ClearResult, del uint32, all bool) {
 	if !res.Comparable {
 		s.outcomes = append(s.outcomes, "ret-not-compared(overlay-key-matches)")
 		return
 	}
-	tag := c08TxTag(inTx)
-	unrelated := ""
-	if inTx && ns == "main" {
-		if _, ok := before.BMain[prefix]; ok {
-			unrelated = "+backend-holds-the-key-equal-to-the-prefix"
-		}
-	} else if inTx && prefix != "" {
-		if _, ok := before.BChild[c08Child][prefix]; ok {
-			unrelated = "+backend-holds-the-key-equal-to-the-prefix"
-		}
-	}
-	if inTx {
-		ov := before.Txs[before.Depth()-1].Main
-		if ns == "child" {
-			ov = before.Txs[before.Depth()-1].Child[c08Child]
-		}
-		for _, e := range ov {
-			if e.Present {
-				if !strings.Contains(unrelated, "non-matching") {
-					unrelated += "+overlay-holds-non-matching-keys"
-				}
-			}
-		}
-	}
-	if del != res.Deleted {
-		shape := "counts-too-many"
-		if del < res.Deleted {
-			shape = "counts-too-few"
-		}
-		s.softf(name+tag+":deleted-count:"+shape+unrelated, "%s returned deleted=%d, want %d (backend keys matching: %d, no overlay key matches); before: %s",
-			name, del, res.Deleted, res.BackendMatching, c08ModelString(before))
-	}
-	if !res.FlagComparable {
+	flagCmp := res.FlagComparable
+	if !flagCmp {
 		s.outcomes = append(s.outcomes, "flag-not-compared(limit0-nothing-matching-notx)")
+	}
+	same := func(d uint32, a bool) bool { return del == d && (!flagCmp || all == a) }
+	if same(res.Deleted, res.AllDeleted) {
+		s.outcomes = append(s.outcomes, fmt.Sprintf("ret-compared(%s%s all=%t)", name, c08TxTag(inTx), all))
 		return
 	}
-	if all != res.AllDeleted {
-		shape := "reports-all-deleted-though-matching-keys-remain"
-		if !all {
-			shape = "reports-not-all-deleted-though-no-matching-key-remains"
+	pair := func(n int) (uint32, bool) { // pinned semantics on n matching backend keys
+		d := n
+		if limit >= 0 && limit < d {
+			d = limit
 		}
-		s.softf(name+tag+":allDeleted-flag:"+shape+unrelated, "%s returned allDeleted=%t, want %t (backend keys matching: %d, deleted %d, no overlay key matches); before: %s",
-			name, all, res.AllDeleted, res.BackendMatching, res.Deleted, c08ModelString(before))
+		return uint32(d), d == n
 	}
+	backend := before.BMain
+	var ov map[string]ref.C08Entry
+	if inTx {
+		ov = before.Txs[before.Depth()-1].Main
+	}
+	if ns == "child" {
+		backend = before.BChild[c08Child]
+		if inTx {
+			ov = before.Txs[before.Depth()-1].Child[c08Child]
+		}
+	}
+	_, hasEq := backend[prefix]
+	otherOverlayKeys := false
+	for _, e := range ov {
+		if e.Present {
+			otherOverlayKeys = true // (none of them matches: res.Comparable)
+		}
+	}
+	n := res.BackendMatching
+	shape := "wrong-return-values"
+	dEq, aEq := pair(n - 1)
+	switch {
+	case inTx && hasEq && same(dEq, aEq):
+		shape = "backend-key-equal-to-the-prefix-not-found"
+	case inTx && otherOverlayKeys && same(res.Deleted, false):
+		shape = "not-all-deleted-because-the-overlay-holds-keys-without-the-prefix"
+	case inTx && hasEq && otherOverlayKeys && same(dEq, false):
+		shape = "backend-key-equal-to-the-prefix-not-found+not-all-deleted-because-the-overlay-holds-keys-without-the-prefix"
+	case !inTx && limit == 0 && n > 0 && same(uint32(n), true):
+		shape = "limit0-deletes-every-key"
+	}
+	s.softf(name+".returns"+c08TxTag(inTx)+":"+shape, "%s(prefix %q, limit %d) returned (deleted=%d, allDeleted=%t), want (%d, %t): %d backend keys match, no overlay entry matches; before: %s",
+		name, prefix, limit, del, all, res.Deleted, res.AllDeleted, n, c08ModelString(before))
 }
 
 func c08Apply(s *c08State, o c08Op) string {
@@ -795,7 +803,7 @@ func c08Apply(s *c08State, o c08Op) string {
 			return "ClearPrefixLimit: unexpected error " + err.Error()
 		}
 		res := s.m.ClearPrefix(o.k, o.limit)
-		c08CmpRet(s, "ClearPrefixLimit", inTx, before, "main", o.k, res, del, all)
+		c08CmpRet(s, "ClearPrefixLimit", inTx, before, "main", o.k, o.limit, res, del, all)
 	case "setChild":
 		if err := s.ts.SetChildStorage(child, []byte(o.k), o.v); err != nil {
 			return "SetChildStorage: unexpected error " + err.Error()
@@ -821,7 +829,7 @@ func c08Apply(s *c08State, o c08Op) string {
 		}
 		res := s.m.ClearPrefixInChild(c08Child, "", o.limit)
 		if !skip {
-			c08CmpRet(s, "DeleteChildLimit", inTx, before, "child", "", res, del, all)
+			c08CmpRet(s, "DeleteChildLimit", inTx, before, "child", "", o.limit, res, del, all)
 		}
 	case "clearPrefixInChild":
 		err := s.ts.ClearPrefixInChild(child, []byte(o.k))
@@ -837,7 +845,7 @@ func c08Apply(s *c08State, o c08Op) string {
 		}
 		res := s.m.ClearPrefixInChild(c08Child, o.k, o.limit)
 		if !skip {
-			c08CmpRet(s, "ClearPrefixInChildWithLimit", inTx, before, "child", o.k, res, del, all)
+			c08CmpRet(s, "ClearPrefixInChildWithLimit", inTx, before, "child", o.k, o.limit, res, del, all)
 		}
 	default:
 		panic("unknown op " + o.kind)
@@ -1056,7 +1064,7 @@ func c08Sig(hist []verifmc.Op, desc string) string {
 func TestVerif_C08(t *testing.T) {
 	r := verifmc.NewReport("C08", "triestate-overlaymodel", "model_checking")
 	defer r.Write()
-	depth := verifmc.Pick(4, 5)
+	depth := verifmc.Pick(4, 6)
 	maxNest := 3
 	r.Rule = "BFS over all histories up to the depth of Put/Delete/ClearPrefix/ClearPrefixLimit(0..2)/SetChildStorage/ClearChildStorage/DeleteChild/" +
 		"DeleteChildLimit(nil,0,1)/ClearPrefixInChild/ClearPrefixInChildWithLimit(1)/Start/Commit/Rollback (nesting <= 3) on the real TrieState over a real InMemoryTrie, " +
@@ -1109,4 +1117,82 @@ func TestVerif_C08(t *testing.T) {
 		r.Extra["completed_depth_from_"+key] = r.Extra["completed_depth"]
 		r.Extra["new_states_per_depth_from_"+key] = r.Extra["new_states_per_depth"]
 	}
+}
+
+// TestVerif_C08_EmptyChildPrefix: clearing a child trie with the EMPTY prefix is legal in Substrate
+// (clear_child_prefix; only the main-storage clear refuses prefixes overlapping :child_storage:).
+// It is kept out of the BFS alphabet because the unchanged code does not return from it inside a
+// transaction when the child exists in the state (the key loop never sees the end of the iterator):
+// a non-returning operation cannot be a BFS successor.  Here every combination of
+// {no transaction, transaction} x {child absent, child in the state, child only in the overlay, both}
+// x {unlimited, limit 1} is executed under a watchdog of 3 s (~10^6 times the normal cost).
+func TestVerif_C08_EmptyChildPrefix(t *testing.T) {
+	r := verifmc.NewReport("C08", "empty-child-prefix", "model_checking")
+	defer r.Write()
+	r.Rule = "ClearPrefixInChild / ClearPrefixInChildWithLimit(1) with the empty prefix on child c1 for every combination of {no transaction, open transaction} x " +
+		"{child keys in the state: none, k1 k2} x {child keys set in the transaction: none, k2 (only when a transaction is open)}; the call must return (3 s watchdog) and " +
+		"leave the contents the overlay model prescribes"
+	var n int64
+	for _, inTx := range []bool{false, true} {
+		for _, inState := range []bool{false, true} {
+			for _, inOverlay := range []bool{false, true} {
+				if inOverlay && !inTx {
+					continue
+				}
+				for _, limit := range []int{-1, 1} {
+					s := c08Fresh(false)
+					var hist []string
+					if inState {
+						for _, k := range c08ChildKeys {
+							c08Apply(s, c08Op{kind: "setChild", k: k, v: c08V1})
+							hist = append(hist, c08Op{kind: "setChild", k: k, v: c08V1}.Name())
+						}
+					}
+					if inTx {
+						c08Apply(s, c08Op{kind: "start"})
+						hist = append(hist, "start")
+					}
+					if inOverlay {
+						c08Apply(s, c08Op{kind: "setChild", k: "k2", v: c08V2})
+						hist = append(hist, c08Op{kind: "setChild", k: "k2", v: c08V2}.Name())
+					}
+					s.soft = nil
+					op := c08Op{kind: "clearPrefixInChild", k: ""}
+					if limit >= 0 {
+						op = c08Op{kind: "clearPrefixInChildLimit", k: "", limit: limit}
+					}
+					hist = append(hist, op.Name())
+					n++
+					done := make(chan string, 1)
+					go func() {
+						var d string
+						if p, msg := verifmc.Guard(func() { d = c08Apply(s, op) }); p {
+							d = msg
+						}
+						done <- d
+					}()
+					select {
+					case d := <-done:
+						r.Outcome("returned")
+						if d != "" {
+							r.Violate(c08Sig(nil, d), d, hist)
+						}
+						for _, v := range s.soft {
+							r.Violate(v.Sig, v.Desc, hist)
+						}
+					case <-time.After(3 * time.Second):
+						r.Outcome("did-not-return")
+						r.Violate(op.kind+c08TxTag(inTx)+":empty-prefix-does-not-terminate", fmt.Sprintf("%s did not return within 3 s (child in state: %t, child keys in overlay: %t)", op.Name(), inState, inOverlay), hist)
+						// the goroutine keeps appending keys; stop here so that the process ends soon
+						r.Add("evaluations", n)
+						r.Capped("stopped after a non-returning call (its goroutine cannot be cancelled)")
+						return
+					}
+					r.Distinct(strings.Join(hist, ";"))
+				}
+			}
+		}
+	}
+	r.Add("evaluations", n)
+	r.Sample([]string{"setChild(c1,k1,01)", "start", "clearPrefixInChild(c1,)"})
 }
